@@ -780,7 +780,12 @@ where
             Ok(r) => r,
             Err(p) => {
                 let mut r = Report::new();
-                r.fail(format!("harness oracle panicked (outside a calamine guard): {p}"));
+                // a panic located in the harness's own sources is a harness defect (exit 2), never a verdict
+                if p.contains("@ src/") {
+                    r.fail(format!("HARNESS-SELF-CHECK: the harness itself panicked: {p}"));
+                } else {
+                    r.fail(format!("harness oracle panicked (outside a calamine guard): {p}"));
+                }
                 r
             }
         };
@@ -843,7 +848,11 @@ pub fn replay_as<T: DeserializeOwned>(case: &serde_json::Value, oracle: impl Fn(
             Ok(r) => r,
             Err(p) => {
                 let mut r = Report::new();
-                r.fail(format!("harness oracle panicked: {p}"));
+                if p.contains("@ src/") {
+                    r.fail(format!("HARNESS-SELF-CHECK: the harness itself panicked: {p}"));
+                } else {
+                    r.fail(format!("harness oracle panicked: {p}"));
+                }
                 r
             }
         }),
